@@ -135,6 +135,9 @@ def hexval(c):
     return z3.Or(isd, isl, isu), SymInt.make(z3.ZeroExt(1, z3.Extract(7, 0, val)), 0, 255)
 
 
+CONTRACT_MODE = False  # set by harnesses that only decide totality / exception types
+
+
 def int_dec(s):
     """int(str) base 10 for texts made of ASCII digits; a character that int() might accept otherwise (sign,
     whitespace, underscore, non-ASCII digit) is outside the model; any other character -> ValueError"""
@@ -153,6 +156,12 @@ def int_dec(s):
             else:
                 odd = truth(mkbool(z3.Or(*[c == k for k in special], z3.UGE(c, 128), z3.And(z3.UGE(c, 28), z3.ULE(c, 31)))))
             if odd:
+                if CONTRACT_MODE:
+                    # totality harnesses (C08): int(text) "returns an int or raises ValueError" — both outcomes are explored,
+                    # the value is left unconstrained
+                    if truth(mkbool(z3.Bool(Ctx.cur.fresh("int_accepts")))):
+                        return sym_int(Ctx.cur.fresh("int_value"), -(1 << 64), 1 << 64)
+                    raise ValueError("invalid literal for int() with base 10")
                 raise Unsupported("int() of text with sign/whitespace/underscore/non-ASCII characters")
             raise ValueError("invalid literal for int() with base 10")
         d = c - 48 if isinstance(c, int) else SymInt.make(z3.ZeroExt(1, z3.Extract(7, 0, c - 48)), 0, 9)
@@ -253,6 +262,16 @@ def e_JoinedStr(self, e, env):
 Interp.e_JoinedStr = e_JoinedStr
 
 
+def _contract_high(enc):
+    """contract model of decoding a byte >= 0x80 as UTF-8: UnicodeDecodeError, or some non-ASCII character (totality harnesses
+    only: the decoded text is not an observable there)"""
+    if truth(mkbool(z3.Bool(Ctx.cur.fresh("utf8_valid")))):
+        c = z3.BitVec(Ctx.cur.fresh("utf8_char"), 21)
+        Ctx.cur.add_c(z3.UGE(c, 128), z3.ULE(c, 0x10FFFF))
+        return c
+    raise UnicodeDecodeError(enc, b"", 0, 1, "model")
+
+
 def seq_decode(self, encoding="utf-8", errors="strict"):
     enc = encoding.lower().replace("_", "-")
     out = []
@@ -270,6 +289,9 @@ def seq_decode(self, encoding="utf-8", errors="strict"):
             else:
                 if enc == "ascii":
                     raise UnicodeDecodeError(enc, b"", 0, 1, "model")
+                if CONTRACT_MODE:
+                    out.append(_contract_high(enc))
+                    continue
                 raise Unsupported("utf-8 multibyte decode of concrete high byte in symbolic string")
         else:
             if truth(mkbool(z3.ULT(c, 128))):
@@ -278,6 +300,8 @@ def seq_decode(self, encoding="utf-8", errors="strict"):
                 continue
             elif enc == "ascii":
                 raise UnicodeDecodeError(enc, b"", 0, 1, "model")
+            elif CONTRACT_MODE:
+                out.append(_contract_high(enc))
             else:
                 raise Unsupported("utf-8 multibyte decode")
     return SymStr(out)
